@@ -258,23 +258,38 @@ impl<const LC: bool> EventSource for Comp<LC> {
 
     fn register(&mut self, poll: &mut Poll, tf: &mut TokenFactory) -> calloop::Result<()> {
         self.own = Some(tf.token());
+        let mut r = Ok(());
         for s in self.subs.iter_mut() {
-            s.register(poll, tf)?;
+            r = s.register(poll, tf);
+            if r.is_err() {
+                break;
+            }
         }
-        Ok(())
+        self.regop(0, r.is_ok());
+        r
     }
     fn reregister(&mut self, poll: &mut Poll, tf: &mut TokenFactory) -> calloop::Result<()> {
         self.own = Some(tf.token());
+        let mut r = Ok(());
         for s in self.subs.iter_mut() {
-            s.reregister(poll, tf)?;
+            r = s.reregister(poll, tf);
+            if r.is_err() {
+                break;
+            }
         }
-        Ok(())
+        self.regop(1, r.is_ok());
+        r
     }
     fn unregister(&mut self, poll: &mut Poll) -> calloop::Result<()> {
+        let mut r = Ok(());
         for s in self.subs.iter_mut() {
-            s.unregister(poll)?;
+            r = s.unregister(poll);
+            if r.is_err() {
+                break;
+            }
         }
-        Ok(())
+        self.regop(2, r.is_ok());
+        r
     }
 
     const NEEDS_EXTRA_LIFECYCLE_EVENTS: bool = LC;
@@ -317,6 +332,14 @@ impl<const LC: bool> EventSource for Comp<LC> {
                 s.push_str(&format!(" {}", code));
             }
             w.log(s);
+        }
+    }
+}
+
+impl<const LC: bool> Comp<LC> {
+    fn regop(&self, kind: u8, ok: bool) {
+        if let Some(w) = self.w.upgrade() {
+            w.log(format!("16 {} {} {}", self.h, kind, if ok { 0 } else { 1 }));
         }
     }
 }
